@@ -13,8 +13,10 @@ Proved, for ALL inputs:
   index, slice, element assignment and `make` through `goIdx / goSlice / goSet / goMake` (`R.panic` where Go panics), every explicit
   bounds check mirrored literally: no state and no opcode byte leads to `panic` (`C12_step_total_no_oob`, `C12_run_total`);
 * the recursive value operations that C14 does not cover stop within an explicit budget on EVERY heap, cyclic or shared
-  (`C12_clone_terminates`, `C12_convert_terminates`, `C12_buildResult_terminates`); where the code really does not return the model
-  says so (`C12_buildParamToNative_diverges`: the C14 finding, for every budget);
+  (`C12_clone_terminates`, `C12_convert_terminates`, `C12_buildResult_terminates`, and `C12_buildParamToNative_terminates` for the code
+  as repaired by 060d8e9c); the function as it was before the repair did not return on `a = [1, a]`, for any budget
+  (`C12_historical_buildParamToNative_diverges`); the one process death the model still contains, `reflect.DeepEqual` out of stack under
+  EQUAL, is an explicit outcome with a witness (`C12_deepEqual_overflow_witness`);
 * `Model/NativeDec.lean` — the native contracts' decoders that loop over an announced count are total and run at most
   `len(input)` iterations (`C12_count_loop_bounded`, `C12_decode_total_*`);
 * the list of explicit `panic(` calls and of count-sized loops / allocations extracted from the Go sources on every run equals the
@@ -27,21 +29,25 @@ open OntVerif.Model.NativeDec OntVerif.Proofs.NativeDec
 /-! ## (a) the executor -/
 
 /-- **No opcode indexes out of range.** For every machine state (any code, any reader position — also past the end —, any stacks, any
-heap, both feature flags) and every opcode byte, one `ExecuteOp` yields a new state, a VM fault, or lies outside the model; it never
-reaches a Go index / slice / `make` outside its range and no loop of the model runs out of budget. -/
-theorem C12_step_total_no_oob (m : M) (op : Nat) :
-    (∃ m', step m op = .ok m') ∨ step m op = .fault ∨ step m op = .unmod ∨ step m op = .dangling := by
-  have h := step_safe m op
-  cases hs : step m op with
+heap, both feature flags), every `Serialize` evaluator and every opcode byte, one `ExecuteOp` / `SystemCall` yields a new state, a VM
+fault, lies outside the model, or is the one modelled process death (`overflow`: `reflect.DeepEqual` under EQUAL out of stack; a
+`Serialize` evaluator that does not return); it never reaches a Go index / slice / `make` outside its range and no loop of the model runs
+out of budget. (`dangling` is excluded from the initial machine on by `C12_step_closed` / `C12_invoke_total`.) -/
+theorem C12_step_total_no_oob (serF : Heap → Val → Except VErr Bytes) (m : M) (op : Nat) :
+    (∃ m', step serF m op = .ok m') ∨ step serF m op = .fault ∨ step serF m op = .unmod ∨ step serF m op = .overflow ∨
+      step serF m op = .dangling := by
+  have h := step_safe serF m op
+  cases hs : step serF m op with
   | ok m' => exact .inl ⟨m', rfl⟩
   | fault => exact .inr (.inl rfl)
   | unmod => exact .inr (.inr (.inl rfl))
-  | dangling => exact .inr (.inr (.inr rfl))
+  | overflow => exact .inr (.inr (.inr (.inl rfl)))
+  | dangling => exact .inr (.inr (.inr (.inr rfl)))
   | panic => rw [hs] at h; exact h.elim
   | fuel => rw [hs] at h; exact h.elim
 
 /-- the same for a whole invocation (the loop of `NeoVmService.Invoke`), any number of steps -/
-theorem C12_run_total (n : Nat) (m : M) : run n m ≠ .panic ∧ run n m ≠ .fuel := by
+theorem C12_run_total (serF : Heap → Val → Except VErr Bytes) (n : Nat) (m : M) : run serF n m ≠ .panic ∧ run serF n m ≠ .fuel := by
   induction n generalizing m with
   | zero =>
     unfold run
@@ -62,7 +68,7 @@ theorem C12_run_total (n : Nat) (m : M) : run n m ≠ .panic ∧ run n m ≠ .fu
       · exact ⟨nofun, nofun⟩
       · split
         · rename_i op pos _
-          have hs := step_safe { m with pos := pos } op.toNat
+          have hs := step_safe serF { m with pos := pos } op.toNat
           split
           · exact ih _
           · exact ⟨nofun, nofun⟩
@@ -70,22 +76,29 @@ theorem C12_run_total (n : Nat) (m : M) : run n m ≠ .panic ∧ run n m ≠ .fu
           · exact ⟨nofun, nofun⟩
           · exact ⟨nofun, nofun⟩
           · rename_i hp; rw [hp] at hs; exact hs.elim
+          · exact ⟨nofun, nofun⟩
         · exact ⟨nofun, nofun⟩
         · rename_i hp; rw [hp] at hb; exact hb.elim
         · exact ⟨nofun, nofun⟩
 
 /-- **References never dangle.** `WF m`: every reference on the stacks and inside heap objects points into the heap (what a Go pointer
-does by construction). Every opcode preserves `WF` and never takes the model's `dangling` branch on a `WF` machine. -/
-theorem C12_step_closed (m : M) (w : WF m) (op : Nat) :
-    step m op ≠ .dangling ∧ ∀ m', step m op = .ok m' → WF m' := by
-  have h := step_inv m op w
-  cases hs : step m op with
-  | ok m' => rw [hs] at h; exact ⟨nofun, fun m'' e => by injection e with e; subst e; exact h⟩
-  | dangling => rw [hs] at h; exact h.elim
+does by construction). Every opcode (and the three modelled syscalls) preserves `WF` and never takes the model's `dangling` branch on a
+`WF` machine, for every `Serialize` evaluator that does not invent a dangling reference on a closed heap (`SerClosed`; the model's own
+`serialize` is one: `C12_serialize_closed`). -/
+theorem C12_step_closed (serF : Heap → Val → Except VErr Bytes) (hs : SerClosed serF) (m : M) (w : WF m) (op : Nat) :
+    step serF m op ≠ .dangling ∧ ∀ m', step serF m op = .ok m' → WF m' := by
+  have h := step_inv serF hs m op w
+  cases hst : step serF m op with
+  | ok m' => rw [hst] at h; exact ⟨nofun, fun m'' e => by injection e with e; subst e; exact h⟩
+  | dangling => rw [hst] at h; exact h.elim
   | fault => exact ⟨nofun, nofun⟩
   | panic => exact ⟨nofun, nofun⟩
   | unmod => exact ⟨nofun, nofun⟩
   | fuel => exact ⟨nofun, nofun⟩
+  | overflow => exact ⟨nofun, nofun⟩
+
+theorem C12_serialize_closed (var : Variant) (perm : Perm) (hv : perm.valid) : SerClosed (serialize var perm) :=
+  serialize_closed var perm hv
 
 /-- the hypothesis of `C12_step_closed` is satisfiable: the initial machine of every invocation, and a machine holding the cyclic `a = [1, a]` -/
 example : WF { code := [0x51], allowEOF := true } := wf_init _ _ _
@@ -106,24 +119,33 @@ example : WF { code := [], eval := [.ref 0], heap := [.arr [.int 1, .ref 0]] } :
     · trivial
     · exact Nat.zero_lt_one
 
-/-- **The executor part of the property, from the initial machine**: for every byte code, both feature flags and every number of steps,
-an invocation ends in a final (closed) machine, in a VM fault, at an opcode outside the model, or at the step limit — never in a Go
-panic, an exhausted model budget or a dangling reference. -/
-theorem C12_invoke_total (n : Nat) (code : Bytes) (allowEOF disableHasKey : Bool) :
-    (∃ m', run n { code := code, allowEOF := allowEOF, disableHasKey := disableHasKey } = .halt m' ∧ WF m') ∨
-    run n { code := code, allowEOF := allowEOF, disableHasKey := disableHasKey } = .fault ∨
-    run n { code := code, allowEOF := allowEOF, disableHasKey := disableHasKey } = .unmod ∨
-    run n { code := code, allowEOF := allowEOF, disableHasKey := disableHasKey } = .steplimit := by
-  have h1 := C12_run_total n { code := code, allowEOF := allowEOF, disableHasKey := disableHasKey }
-  have h2 := run_inv n { code := code, allowEOF := allowEOF, disableHasKey := disableHasKey } (wf_init code allowEOF disableHasKey)
-  cases hr : run n { code := code, allowEOF := allowEOF, disableHasKey := disableHasKey } with
+/-- **The executor part of the property, from the initial machine**: for every byte code, both feature flags and every number of steps
+(with the model's own `Serialize`, code as shipped, any valid map iteration order), an invocation ends in a final (closed) machine, in a
+VM fault, at an opcode / syscall outside the model, at the step limit, or in the modelled stack overflow of `reflect.DeepEqual` — never
+in a Go panic, an exhausted model budget or a dangling reference. -/
+theorem C12_invoke_total (perm : Perm) (hv : perm.valid) (n : Nat) (code : Bytes) (allowEOF disableHasKey : Bool) :
+    let r := run (serialize .asShipped perm) n { code := code, allowEOF := allowEOF, disableHasKey := disableHasKey }
+    (∃ m', r = .halt m' ∧ WF m') ∨ r = .fault ∨ r = .unmod ∨ r = .steplimit ∨ r = .overflow := by
+  intro r
+  have h1 := C12_run_total (serialize .asShipped perm) n { code := code, allowEOF := allowEOF, disableHasKey := disableHasKey }
+  have h2 := run_inv (serialize .asShipped perm) (serialize_closed _ perm hv) n
+    { code := code, allowEOF := allowEOF, disableHasKey := disableHasKey } (wf_init code allowEOF disableHasKey)
+  cases hr : r with
   | halt m' => exact .inl ⟨m', rfl, h2.2 m' hr⟩
   | fault => exact .inr (.inl rfl)
   | unmod => exact .inr (.inr (.inl rfl))
-  | steplimit => exact .inr (.inr (.inr rfl))
+  | steplimit => exact .inr (.inr (.inr (.inl rfl)))
+  | overflow => exact .inr (.inr (.inr (.inr rfl)))
   | panic => exact absurd hr h1.1
   | fuel => exact absurd hr h1.2
   | dangling => exact absurd hr h2.1
+
+/-- **The one modelled process death has a witness**: two separately built values struct [array [array …]] nested one level deeper than the
+budget make the model of `reflect.DeepEqual` run out of stack, for every budget — in particular for `DEEPEQ_LEVELS` (≈ 2.95·10^5 levels,
+measured: 1 GB of goroutine stack at ~3.4 KB per level). The Go witness is the thorough-tier line `V 8000000 …` (findings/C12.json,
+class `fatal-stack-overflow:lib:reflect<types.VmValue.Equals`). -/
+theorem C12_deepEqual_overflow_witness (L : Nat) : deepVal (nestH (L + 1)) L [] (.ref 0) (.ref 1) = .overflow :=
+  deepVal_overflow_witness L
 
 /-- **`ValueStack`**: `Pop`, `Peek`, `Remove`, `Insert`, `Swap`, `Push` for every stack content and every index (negative, huge, = len) -/
 theorem C12_stack_ops_total (d : Stack) (i j : Int) (t : Val) :
@@ -184,9 +206,19 @@ theorem C12_convert_terminates (h : Heap) (v : Val) : R.safe (convHex h CONV_FUE
 theorem C12_buildResult_terminates (h : Heap) (v : Val) : R.safe (buildRes h BUILD_FUEL v 0) :=
   buildRes_safe _ _ _ _ (by unfold BUILD_FUEL MAX_PARAM_LENGTH; omega) (by unfold BUILD_FUEL; omega)
 
-/-- **Where the code really does not return** (`fatal-stack-overflow:…BuildParamToNative…cyclic-value`, recorded under C14): on
-`a = [1, a]` the shipped detector sees nothing and `BuildParamToNative` exhausts EVERY recursion budget — no bound exists. -/
-theorem C12_buildParamToNative_diverges (f : Nat) (path : List Nat) :
+/-- **`BuildParamToNative` as it is** (`natvP`: the shipped detector at every level plus the on-path check of 060d8e9c), both detector
+variants, every heap — cyclic, shared, dangling —, every iteration order: `|heap| + 2` nested calls are enough, the budget is never the
+reason it stops (the containers on the recursion path are pairwise different objects). This is C14's `C14_buildParam_terminates`,
+restated here because it is the C12 repair. What remains unbounded is the WORK on shared values and the DEPTH on acyclic ones (known
+findings `…shared-value-unfolding>1e7`, `…acyclic-depth>100000`): `|heap| + 2` levels is a bound on the recursion, not on the stack Go has. -/
+theorem C12_buildParamToNative_terminates (var : Variant) (perm : Perm) (h : Heap) (v : Val) :
+    buildParamToNative var perm h v ≠ .error .fuel :=
+  OntVerif.Proofs.NeoVal.natvP_no_fuel var perm h _ [] [] v List.nodup_nil (by intro x hx; cases hx) (by simp)
+
+/-- **HISTORICAL** (`natv`: `BuildParamToNative` before 060d8e9c; no longer in the tree): on `a = [1, a]` the shipped detector sees
+nothing and the old function exhausted EVERY recursion budget — the fatal stack overflow recorded as
+`fatal-stack-overflow:types.VmValue.BuildParamToNative:native-invoke-cyclic-value` (status fixed). -/
+theorem C12_historical_buildParamToNative_diverges (f : Nat) (path : List Nat) :
     natv .asShipped Perm.id cyc f path (.ref 0) = .error .fuel := by
   induction f generalizing path with
   | zero => rfl
@@ -424,38 +456,30 @@ theorem C12_count_sites_reviewed : OntVerif.Gen.PanicSites.countSites = reviewed
 /-! ## the property at model level -/
 
 /-- the machine on a concrete program: `a = []; a.append(1); a.append(a)` leaves the cyclic array on the stack -/
-example : (match run 100 { code := [0x00, 0xC5, 0x76, 0x51, 0xC8, 0x76, 0x76, 0xC8] } with
+example : (match run (serialize .asShipped Perm.id) 100 { code := [0x00, 0xC5, 0x76, 0x51, 0xC8, 0x76, 0x76, 0xC8] } with
     | .halt m => (m.eval, m.heap) | _ => ([], [])) = ([.ref 0], [.arr [.int 1, .ref 0]]) := by decide
 /-- boundary indexes fault, they do not panic: PICK with n = depth, SUBSTR past the end, PUSHDATA4 announcing 4 GiB -/
-example : (match run 100 { code := [0x55, 0x51, 0x79] } with | .fault => true | _ => false) = true := by decide
-example : (match run 100 { code := [0x02, 0x61, 0x62, 0x51, 0x52, 0x7F] } with | .fault => true | _ => false) = true := by decide
-example : (match run 100 { code := [0x4E, 0xff, 0xff, 0xff, 0xff] } with | .fault => true | _ => false) = true := by decide
+example : (match run (serialize .asShipped Perm.id) 100 { code := [0x55, 0x51, 0x79] } with | .fault => true | _ => false) = true := by decide
+example : (match run (serialize .asShipped Perm.id) 100 { code := [0x02, 0x61, 0x62, 0x51, 0x52, 0x7F] } with | .fault => true | _ => false) = true := by decide
+example : (match run (serialize .asShipped Perm.id) 100 { code := [0x4E, 0xff, 0xff, 0xff, 0xff] } with | .fault => true | _ => false) = true := by decide
 
-/-- **Full statement at model level**, parametric in the cycle detector: every modelled operation ends in a value or an error for every
-input — including `BuildParamToNative`, whose termination is C14's subject. -/
+/-- the widened subset: `2 * 3` through C13's integer model; EQUAL on two structs through the DeepEqual model (the syscalls are exercised by the X lines) -/
+example : (match run (serialize .asShipped Perm.id) 100 { code := [0x52, 0x53, 0x95] } with
+    | .halt m => m.eval | _ => []) = [.int 6] := by decide
+example : (match run (serialize .asShipped Perm.id) 100 { code := [0x51, 0xC6, 0x51, 0xC6, 0x87] } with
+    | .halt m => m.eval | _ => []) = [.bool true] := by decide
+
+/-- **Full statement at model level**: every modelled operation ends in a value or an error for every input — except where the model
+says `overflow` (EQUAL on two structs deeper than Go's stack: known finding, `C12_deepEqual_overflow_witness`). -/
 def C12_full_statement (var : Variant) : Prop :=
-  (∀ (m : M) (op : Nat), R.safe (step m op)) ∧
+  (∀ (serF : Heap → Val → Except VErr Bytes) (m : M) (op : Nat), R.safe (step serF m op)) ∧
   (∀ (h : Heap) (v : Val), R.safe (convertHexOk h v) ∧ R.safe (buildRes h BUILD_FUEL v 0)) ∧
   (∀ (h0 : Heap) (r : Ref) (h : Heap), R.safe (cloneStruct CLONE_FUEL h0 r h 0)) ∧
-  (∀ (perm : Perm) (h : Heap) (v : Val), perm.valid → ∃ f, ∀ path, natv var perm h f path v ≠ .error .fuel)
+  (∀ (perm : Perm) (h : Heap) (v : Val), buildParamToNative var perm h v ≠ .error .fuel)
 
-/-- everything except the last clause holds for the code as shipped -/
-theorem C12_asShipped_partial :
-    (∀ (m : M) (op : Nat), R.safe (step m op)) ∧
-    (∀ (h : Heap) (v : Val), R.safe (convertHexOk h v) ∧ R.safe (buildRes h BUILD_FUEL v 0)) ∧
-    (∀ (h0 : Heap) (r : Ref) (h : Heap), R.safe (cloneStruct CLONE_FUEL h0 r h 0)) :=
-  ⟨step_safe, fun h v => ⟨convertHexOk_safe h v, C12_buildResult_terminates h v⟩, C12_clone_terminates⟩
-
-/-- **the full statement holds with the sound detector of C14** (`Variant.sound`: what `fixes/C12-buildparam-onpath-cycle.patch`
-achieves for `BuildParamToNative` — a cycle is reported instead of followed): `|heap| + 2` nested calls are enough on every heap -/
-theorem C12_sound : C12_full_statement .sound :=
+/-- the full statement holds for the code as it is (and for the sound detector of C14) -/
+theorem C12_full (var : Variant) : C12_full_statement var :=
   ⟨step_safe, fun h v => ⟨convertHexOk_safe h v, C12_buildResult_terminates h v⟩, C12_clone_terminates,
-   fun perm h v _ => ⟨h.length + 2, fun path => natv_sound_terminates perm h v path⟩⟩
-
-/-- **as shipped the full statement is false** (the C14 defect, seen from C12): no budget makes `BuildParamToNative` return on `a = [1, a]` -/
-theorem C12_asShipped_counterexample : ¬ C12_full_statement .asShipped := by
-  intro ⟨_, _, _, h4⟩
-  obtain ⟨f, hf⟩ := h4 Perm.id cyc (.ref 0) (fun _ _ _ => List.Perm.refl _)
-  exact hf [] (C12_buildParamToNative_diverges f [])
+   fun perm h v => C12_buildParamToNative_terminates var perm h v⟩
 
 end OntVerif.Props.C12
